@@ -747,7 +747,7 @@ def frame_obligations(ctx, R, prover, pid="C12"):
 
 # ----------------------------------------------------------------- safe_join (C11): the path guard itself, on strings
 
-SJ_ALPHABET = "a./"
+SJ_ALPHABET = "a./\\"      # a plain letter, the two characters std::path gives meaning to on Unix, and one it does not (a backslash is an ordinary name byte)
 
 
 def _install_unix_path_models(ex, cap):
@@ -759,8 +759,14 @@ def _install_unix_path_models(ex, cap):
     (validated every run against the native std implementation through the real safe_join)"""
     import re as _re
     from mirsmt.stdmodels import COMPONENT, _str_of
+    from mirsmt import textmodels
     SL, DOT = ord("/"), ord(".")
     ex.enums.setdefault("Component", dict(COMPONENT))
+
+    def replace_char(ex_, st, args, dest_ty, func, where):
+        s_, to = _str_of(ex_, st, args[0]), _str_of(ex_, st, args[2])
+        return VStruct("String", [textmodels.replace_char(ex_, s_, args[1].t, to, cap, where, st)])
+    ex.models.insert(0, (_re.compile(r"^(std|alloc)::str::<impl str>::replace::<char>$"), replace_char, "str::replace(char, &str) on a bounded symbolic string"))
 
     def path_new(ex_, st, args, dest_ty, func, where):
         return VRef("val", val=_str_of(ex_, st, args[0]))
@@ -817,7 +823,7 @@ def _install_unix_path_models(ex, cap):
 
     def ident(ex_, st, args, dest_ty, func, where):
         return args[0]
-    ex.models = [(_re.compile(r"^Path::new::<str>$"), path_new, "Path::new (the same characters)"),
+    ex.models = [(_re.compile(r"^Path::new::<(str|(std::string::)?String)>$"), path_new, "Path::new (the same characters)"),
                  (_re.compile(r"^Path::is_absolute$"), is_abs, "Path::is_absolute (Unix: starts with '/')"),
                  (_re.compile(r"^Path::components$"), comps, "Path::components (Unix definition, bounded length)"),
                  (_re.compile(r"^<Components<'_> as IntoIterator>::into_iter$"), ident, "Components::into_iter"),
